@@ -41,7 +41,7 @@ REQUIRED_CLASSES = ['batch=1', 'blobs', 'inplace_prior', 'dict_prior',
 
 def plan(tier):
     if tier == 'quick':
-        return dict(shards=16, budget_s=85, examples=16)
+        return dict(shards=16, budget_s=70, examples=16)
     return dict(shards=16, budget_s=1000, examples=240)
 
 
